@@ -331,7 +331,17 @@ func resp3To2(val3 respValue) (value respValue) {
 	switch v := val3.data.(type) {
 	case respSimpleString, respErrorString, respInt, respBulkString:
 		value.data = v
-	case respDouble, respBool, respBigNumber, respVerbatimString:
+	case respBool:
+		// RESP2 has no boolean: 1 / 0
+		if v {
+			value.data = respInt(1)
+		} else {
+			value.data = respInt(0)
+		}
+	case respVerbatimString:
+		// RESP2 has no verbatim string: the text (without the format prefix) as a bulk string
+		value.data = respBulkString(v.text)
+	case respDouble, respBigNumber:
 		value.data = respSimpleString(fmt.Sprintf("%s", v))
 	case respBlobError:
 		value.data = respErrorString(v.String())
